@@ -1,4 +1,153 @@
 import OsloModel.Proto
+import OsloModel.Exc
+open Oslo Oslo.Exc Oslo.Proto
 
--- stub: replaced by the real driver of this property group
-def main : IO Unit := Oslo.Proto.serve (fun _ => "bad-request")
+/-
+Request:  run <flag 0|1> <path absent|file|dir> <excs> <body>
+  excs : comma list, one `needsArgs:isExc:priorLen` per declared exception id 0..n-1
+         (class id = index; the initial traceback is `priorLen` frames O<priorLen-1>..O0)
+  body : prefix notation, tokens separated by one blank:
+         nop | rc k | rn k | sr 0|1 | nest 0|1 B | fr 0|1 | cap | seq A B | h k B
+         | fx bound acc rais B | fc bound acc rais k | rp d|n|r<k> B | rwc N|none|<k>
+         acc  = `-` or k,k,…      rais = `-` or k>k',…
+Reply (blank separated):
+  out=ok|R:<who> tb=<tags> cause=-|N|<who> log=-|<who>/<tags>;… path=… ctx=<reraise>:<type>:<value>:<tags>
+  tbs=<tags>|<tags>|…          (final traceback of every declared exception)
+-/
+
+def parseBool : String → Option Bool
+  | "0" => some false | "1" => some true | _ => none
+
+def parseIds (s : String) : Option (List Nat) :=
+  if s = "-" then some [] else (s.splitOn ",").mapM String.toNat?
+
+def parsePairs (s : String) : Option (List (Nat × Nat)) :=
+  if s = "-" then some [] else
+  (s.splitOn ",").mapM fun p =>
+    match p.splitOn ">" with
+    | [a, b] => do pure ((← a.toNat?), (← b.toNat?))
+    | _ => none
+
+def parseRemove (s : String) : Option RemoveFn :=
+  match s.toList with
+  | ['d'] => some .default
+  | ['n'] => some .noop
+  | 'r' :: rest => (String.ofList rest).toNat?.map .raises
+  | _ => none
+
+/-- one body from the front of the token list; `fuel` bounds the nesting -/
+def parseBody : Nat → List String → Option (Body × List String)
+  | 0, _ => none
+  | fuel + 1, toks =>
+    match toks with
+    | "nop" :: r => some (.nop, r)
+    | "cap" :: r => some (.capture, r)
+    | "rc" :: k :: r => k.toNat?.map (fun k => (.raiseCatch k, r))
+    | "rn" :: k :: r => k.toNat?.map (fun k => (.raiseNew k, r))
+    | "sr" :: b :: r => (parseBool b).map (fun b => (.setReraise b, r))
+    | "fr" :: b :: r => (parseBool b).map (fun b => (.forceReraise b, r))
+    | "nest" :: b :: r => do
+      let b ← parseBool b
+      let (body, r) ← parseBody fuel r
+      pure (.nest b body, r)
+    | "seq" :: r => do
+      let (a, r) ← parseBody fuel r
+      let (b, r) ← parseBody fuel r
+      pure (.seq a b, r)
+    | "h" :: k :: r => do
+      let k ← k.toNat?
+      let (body, r) ← parseBody fuel r
+      pure (.handle k body, r)
+    | "fx" :: bound :: acc :: rais :: r => do
+      let bound ← parseBool bound
+      let acc ← parseIds acc
+      let rais ← parsePairs rais
+      let (body, r) ← parseBody fuel r
+      pure (.filterCtx bound ⟨acc, rais⟩ body, r)
+    | "fc" :: bound :: acc :: rais :: k :: r => do
+      let bound ← parseBool bound
+      let acc ← parseIds acc
+      let rais ← parsePairs rais
+      let k ← k.toNat?
+      pure (.filterCall bound ⟨acc, rais⟩ k, r)
+    | "rp" :: rm :: r => do
+      let rm ← parseRemove rm
+      let (body, r) ← parseBody fuel r
+      pure (.rpoe rm body, r)
+    | "rwc" :: x :: r =>
+      if x = "N" then some (.rwc none, r)
+      else if x = "none" then some (.rwc (some none), r)
+      else x.toNat?.map (fun k => (.rwc (some (some k)), r))
+    | _ => none
+
+def parseExc (s : String) : Option (Bool × Bool × Nat) :=
+  match s.splitOn ":" with
+  | [a, b, n] => do pure ((← parseBool a), (← parseBool b), (← n.toNat?))
+  | _ => none
+
+def parsePath : String → Option PathKind
+  | "absent" => some .absent | "file" => some .file | "dir" => some .dir | _ => none
+
+def priorTb (n : Nat) : Tb := (List.range n).reverse.map .prior
+
+def showFrame : Frame → String
+  | .scen => "S" | .sreExit => "X" | .sreForce => "F" | .sreCapture => "K"
+  | .filtExit => "FE" | .filtCall => "C" | .pred => "P" | .rwc => "W"
+  | .rpoeGen => "G" | .cmExit => "CM" | .delete => "D" | .removeFn => "R"
+  | .prior n => s!"O{n}"
+
+def showTb (t : Tb) : String := if t.isEmpty then "-" else String.intercalate "," (t.map showFrame)
+
+def showCls : Cls → String
+  | .user cid _ _ => s!"U{cid}" | .runtimeError => "RuntimeError" | .typeError => "TypeError"
+  | .osError => "OSError" | .caused => "Caused"
+
+def showWho (n : Nat) (h : Heap) (e : ExcId) : String :=
+  if e < n then s!"E{e}" else "new:" ++ showCls (h.cls e)
+
+def showOptWho (n : Nat) (h : Heap) : Option ExcId → String
+  | none => "N" | some e => showWho n h e
+
+def showPath : PathKind → String
+  | .absent => "absent" | .file => "file" | .dir => "dir"
+
+def showRes (n : Nat) (r : Res) : String :=
+  let h := r.st.heap
+  let out := match r.out with
+    | .ok => "out=ok tb=- cause=-"
+    | .raised e => s!"out=R:{showWho n h e} tb={showTb (h.tb e)} cause={showOptWho n h (h.cause e)}"
+  let log := if r.st.log.isEmpty then "-" else
+    String.intercalate ";" (r.st.log.map fun l => s!"{showOptWho n h l.value}/{showTb l.tb}")
+  let ty := match r.ctx.type_ with
+    | none => "N" | some c => showCls c
+  let ctx := s!"{if r.ctx.reraise then 1 else 0}:{ty}:{showOptWho n h r.ctx.value}:{showTb r.ctx.tb}"
+  let tbs := String.intercalate "|" ((List.range n).map fun i => showTb (h.tb i))
+  s!"{out} log={log} path={showPath r.st.path} ctx={ctx} tbs={tbs}"
+
+def handle : List String → String
+  | ["run", flag, path, excs, body] =>
+    match parseBool flag, parsePath path, (excs.splitOn ",").mapM parseExc with
+    | some flag, some path, some excs =>
+      let toks := body.splitOn " "
+      match parseBody (toks.length + 1) toks with
+      | some (b, []) =>
+        let n := excs.length
+        if n = 0 ∨ b.maxId ≥ n then "bad-request" else
+        let arr := excs.toArray
+        -- ids below n are the declared exceptions; the two lookups below are never reached
+        -- with i ≥ n before allocation (every id in the body was checked against n)
+        let heap : Heap := {
+          cls := fun i => match arr[i]? with
+            | some (na, ie, _) => .user i na ie
+            | none => .runtimeError
+          tb := fun i => match arr[i]? with
+            | some (_, _, pl) => priorTb pl
+            | none => []
+          cause := fun _ => none
+          next := n }
+        showRes n (run flag b ⟨heap, [], [], path⟩)
+      | _ => "bad-request"
+    | _, _, _ => "bad-request"
+  | _ => "bad-request"
+
+def main : IO Unit := serve handle
